@@ -40,6 +40,31 @@ func (p *Prog) CG() *cgraph {
 			if ci, ok := in.(ssa.CallInstruction); ok && !ci.Common().IsInvoke() {
 				calleeV = ci.Common().Value
 			}
+			if mc, isMC := in.(*ssa.MakeClosure); isMC {
+				// a closure that is only ever called where it was made (a local helper function) is not
+				// address-taken: no dynamic call elsewhere can reach it
+				onlyCalled := mc.Referrers() != nil && len(*mc.Referrers()) > 0
+				if onlyCalled {
+					for _, rf := range *mc.Referrers() {
+						if _, isDbg := rf.(*ssa.DebugRef); isDbg {
+							continue
+						}
+						ci, isCall := rf.(*ssa.Call)
+						if !isCall || ci.Call.Value != ssa.Value(mc) {
+							onlyCalled = false
+							break
+						}
+						for _, a := range ci.Call.Args {
+							if a == ssa.Value(mc) {
+								onlyCalled = false
+							}
+						}
+					}
+				}
+				if onlyCalled {
+					return
+				}
+			}
 			for _, op := range in.Operands(nil) {
 				if *op == nil || *op == calleeV {
 					continue
